@@ -185,7 +185,7 @@ def physical_elements(elems, how, junk):
 
 def run_family(rep, acc, kind, elements, boxes, tag, junk, chunk=64, batch=320,
                scalar_boxes=16, scalar_stride=1, oracle_stride=0, classify_stride=0,
-               subtypes=G.SUBTYPES, both_every=4, sample=1.0, qscale=1):
+               subtypes=G.SUBTYPES, both_every=4, sample=1.0, qscale=1, box_types=True):
     """one enumeration family: every element x every box, through all forms.
     sample < 1: only a seeded fraction of the (chunk, box batch) pairs is run (at least one
     batch per chunk, so every element is exercised); the fraction grows with rep.scale.
@@ -226,11 +226,14 @@ def run_family(rep, acc, kind, elements, boxes, tag, junk, chunk=64, batch=320,
             bb = boxes[blo:blo + batch]
             both = bj % both_every == 0     # the at-inds form on every both_every-th batch
             results = []
+            btype = U.BOXTYPES[(3 * ci + bj) % len(U.BOXTYPES)] if box_types else 'tuple-int'
             meta = {'kind': kind, 'subtype': st, 'elements': phys, 'derivation': deriv,
-                    'inds': inds, 'family': tag, 'qscale': qscale}
+                    'inds': inds, 'family': tag, 'qscale': qscale, 'box_type': btype}
+            rep.count(f'box_type:{btype}')
             for b in bb:
                 bi = b if qscale == 1 else tuple(c / qscale for c in b)
-                r1, r2 = impl_array(arr, bi, inds_np if both else None)
+                ba = U.boxarg(bi, btype)       # same values, another argument type
+                r1, r2 = impl_array(arr, ba, inds_np if both else None)
                 for form, r in (('array', r1), ('inds', r2)):
                     if isinstance(r, tuple):
                         viol(rep, f'raises:{kind}:{form}', f'{kind} intersects_bounds ({form} form) raised '
@@ -312,7 +315,9 @@ def run_family(rep, acc, kind, elements, boxes, tag, junk, chunk=64, batch=320,
                          {**meta, 'index': i})
                 continue
             sb = [blist[(i * 31 + t * 97) % len(blist)] for t in range(scalar_boxes)]
-            got = [impl_scalar(el, b if qscale == 1 else tuple(c / qscale for c in b)) for b in sb]
+            got = [impl_scalar(el, U.boxarg(b if qscale == 1 else tuple(c / qscale for c in b),
+                                            U.BOXTYPES[(i + t) % len(U.BOXTYPES)] if box_types else 'tuple-int'))
+                   for t, b in enumerate(sb)]
             for b, g in zip(sb, got):
                 if isinstance(g, tuple):
                     cls = 'empty' if len(elems[i]) == 0 else 'nonempty'
@@ -350,7 +355,8 @@ def scalar_point(rep, acc, arr, i, elems, blist, res_by_box, scalar_boxes, meta,
         rep.count('scalar_missing_is_None')
         return
     sb = [blist[(i * 31 + t * 97) % len(blist)] for t in range(scalar_boxes)]
-    got = [impl_scalar(el, b if qscale == 1 else tuple(c / qscale for c in b)) for b in sb]
+    got = [impl_scalar(el, U.boxarg(b if qscale == 1 else tuple(c / qscale for c in b),
+                                    U.BOXTYPES[(i + t) % len(U.BOXTYPES)])) for t, b in enumerate(sb)]
     for b, g in zip(sb, got):
         if isinstance(g, tuple):
             viol(rep, 'scalar-raises:point', f'Point.intersects_bounds raised {g[1]}: {g[2]}',
@@ -626,7 +632,11 @@ def run(rep):
                 'same-winding) x boxes on -1..9; multipolygons of 1-2 parts and a part inside a hole; a fixed '
                 'corpus of empty/missing elements; every kind against boxes with corners on the half / quarter grid '
                 '(integer subtypes first; model side scaled by 4); a seeded random stream with random derivations; '
-                'near-tie configurations with coordinates up to 2^25 in float64/float32/int64/int32. A case is '
+                'near-tie configurations with coordinates up to 2^25 in float64/float32/int64/int32; the box '
+                'ARGUMENT TYPE (Python ints/floats, numpy float32/float64/int32/int64 scalars, float32/float64/int64 '
+                'ndarrays, mixed) rotates over the batches of every family and is swept completely on near ties '
+                'with coordinate differences > 2^12 (float32 products inexact) for float32/int32/int64/float64 '
+                'arrays in the array, at-inds and scalar forms. A case is '
                 'non-trivial when some box separates the elements (some True and some False). '
                 'quick tier: every element of every family is run, against a seeded fraction (1/3 for polylines, '
                 '1/2 otherwise, times rep.scale) of its box batches; thorough tier: all batches for points, '
@@ -644,6 +654,7 @@ def run(rep):
         bulk(rep, acc, tier)
         random_stream(rep, acc, tier)
         band_stream(rep, acc, tier)
+        boxtype_stream(rep, acc, tier)
     finally:
         numba.set_num_threads(nthreads)
     rep.extra['bulk_cpu_seconds'] = round(time.process_time(), 1)
@@ -817,6 +828,147 @@ def band_stream(rep, acc, tier):
                     rep.nontrivial((kind, st, 'band', rnd))
 
 
+def egcd(a, b):
+    if b == 0:
+        return a, 1, 0
+    g, x, y = egcd(b, a % b)
+    return g, y, x - (a // b) * y
+
+
+def tie_configs(rng, n):
+    """near ties whose deciding cross product has factors > 2^12, so that it is inexact in float32
+    although every coordinate is an integer below 2^23 (exact in every subtype and box type):
+    a segment A -> B = A + 2(u, v) and a box with one corner P such that (B - A) x (P - A) is
+    0 (touching), +-1 on the box's side (a miss by a hair) or -+1 (a hair inside);
+    -> (A, B, C, [boxes]) with C a third vertex on the side away from the box"""
+    out = []
+    while len(out) < n:
+        u, v = rng.randint(2 ** 12, 2 ** 13), rng.randint(2 ** 12, 2 ** 13)
+        g, xx, yy = egcd(u, v)            # u*xx + v*yy = 1
+        if g != 1:
+            continue
+        ax, ay = rng.randint(-2 ** 20, 2 ** 20), rng.randint(-2 ** 20, 2 ** 20)
+        side = rng.choice([1, -1])         # +1: box left/above the ascending line, -1: right/below
+        boxes = []
+        for c in (0, side, -side):
+            # (px, py) with u*py - v*px = c, near the middle of the segment
+            px, py = -yy * c, xx * c
+            t = (u - px) // u if u else 0
+            px, py = px + t * u + (u if c == 0 else 0) * 0, py + t * v
+            k = rng.randint(0, 1)
+            px, py = px + k * u, py + k * v
+            assert u * py - v * px == c and 0 <= px <= 2 * u
+            w, h = rng.randint(1, 2 ** 12), rng.randint(1, 2 ** 12)
+            P = (ax + px, ay + py)
+            boxes.append((P[0] - w, P[1], P[0], P[1] + h) if side == 1 else (P[0], P[1] - h, P[0] + w, P[1]))
+        A, B = (ax, ay), (ax + 2 * u, ay + 2 * v)
+        C = (B[0], A[1]) if side == 1 else (A[0], B[1])
+        out.append((A, B, C, boxes))
+    return out
+
+
+def boxtype_stream(rep, acc, tier):
+    """the box ARGUMENT TYPE as a dimension, on near ties that float32 arithmetic cannot decide:
+    every array wrapper (array and at-inds form) and every scalar form is called with the same box as
+    Python ints / floats, numpy float32 / float64 / int32 / int64 scalars, float32 / float64 / int64
+    ndarrays and a mixed tuple, on float32, int32, int64 and float64 arrays; all must give the
+    answer of the exact model"""
+    rng = rep.rng
+    ncfg = 10 if tier == 'quick' else 40
+    for rnd in range(2 if tier == 'quick' else 10):
+        cfgs = tie_configs(rng, ncfg)
+        boxes = [b for c in cfgs for b in c[3]]
+        boxes += [U.reorder(b, 1 + k % 3) for k, b in enumerate(boxes[::4])]
+        fam = {'line': [U.flat([A, B]) for A, B, C, _ in cfgs],
+               'ring': [U.flat([A, B, C, A]) for A, B, C, _ in cfgs],
+               'multiline': [[U.flat([C, A]), U.flat([A, B])] for A, B, C, _ in cfgs],
+               'polygon': [[U.flat([A, B, C, A])] for A, B, C, _ in cfgs],
+               'multipolygon': [[[U.flat([B, A, C, B])]] for A, B, C, _ in cfgs],
+               'multipoint': [U.flat([A, (b[2], b[1]), B]) for A, B, C, bs in cfgs for b in bs[:1]],
+               'point': [[b[2], b[1]] for A, B, C, bs in cfgs for b in bs[:2]]}
+        for kind, els in fam.items():
+            n = len(els)
+            inds = [rng.randrange(n) for _ in range(n + 2)]
+            inds_np = np.array(inds, dtype='int64')
+            for st in ('float32', 'int32', 'int64', 'float64'):
+                arr = G.make_array(kind, U.to_float(els) if st.startswith('float') else els, st)
+                rec = C.Raw(C.coq(export(kind, arr)))
+                meta = {'kind': kind, 'subtype': st, 'elements': els, 'derivation': [], 'inds': inds,
+                        'family': 'box-argument-types', 'boxes': [list(b) for b in boxes], 'both': True,
+                        'qscale': 1}
+                base = None
+                for bt in U.BOXTYPES:
+                    raw = []
+                    for b in boxes:
+                        r1, r2 = impl_array(arr, U.boxarg(b, bt), inds_np)
+                        for form, r in (('array', r1), ('inds', r2)):
+                            if isinstance(r, tuple):
+                                viol(rep, f'raises:{kind}:{form}', f'{kind} intersects_bounds ({form} form) raised '
+                                     f'{r[1]}: {r[2]} for a box given as {bt}',
+                                     {**meta, 'box': list(b), 'box_type': bt})
+                        raw.append((None if isinstance(r1, tuple) else r1, None if isinstance(r2, tuple) else r2))
+                        rep._c01_pairs += n
+                    rep.count(f'box_type:{bt}', len(boxes))
+                    if base is None:
+                        base = raw
+                        continue
+                    for b, (a1, a2), (c1, c2) in zip(boxes, base, raw):
+                        for form, x, y in (('array', a1, c1), ('inds', a2, c2)):
+                            if x is not None and y is not None and not np.array_equal(x, y):
+                                i = int(np.nonzero(x != y)[0][0])
+                                viol(rep, f'box-type-differs:{kind}',
+                                     f'{kind} ({st}, {form} form): a box given as {bt} is answered differently from '
+                                     f'the same box given as Python ints',
+                                     {**meta, 'box': list(b), 'box_type': bt, 'form': form, 'position': i,
+                                      'as_python_ints': x.tolist(), 'as_' + bt: y.tolist(),
+                                      'repro': f'{G.array_class(kind).__name__}(<elements>, dtype={st!r})'
+                                               f'.intersects_bounds(U.boxarg({tuple(b)!r}, {bt!r}))'})
+                # the Python-int answers against the model (kernel) and the oracle
+                results = []
+                for b, (a1, a2) in zip(boxes, base):
+                    results.append((None if a1 is None else C.Some(U.pack_np(a1)),
+                                    None if a2 is None else C.Some(U.pack_np(a2))))
+                    ob = U.orient(b)
+                    if a1 is not None:
+                        for i in range(n):
+                            check_oracle(rep, kind, els[i], b, bool(a1[i]), ob[0] == ob[2] or ob[1] == ob[3],
+                                         {**meta, 'box_type': 'tuple-int'}, i)
+                acc.add(f'run_array_packed {MODEL_FN[kind]}', arr_ty(kind), ARR_RES_TY,
+                        (rec, [C.Nat(i) for i in inds], U.boxes_raw(boxes)), results,
+                        {**meta, 'box_type': 'tuple-int'}, 2 * Acc.COST[kind] * n * len(boxes))
+                rep.evaluations += 1
+                rep.count(f'cases:{kind}')
+                rep.count('box_type_cases')
+                if any(r[0] is not None and 1 < bin(r[0].v).count('1') <= n for r in results):
+                    rep.nontrivial((kind, st, 'boxtypes', rnd))
+                # scalar forms: each element against its own three boxes, every box type
+                for i in range(n):
+                    try:
+                        el = arr[i]
+                    except Exception as e:
+                        rep.count(f'scalar_unbuildable:{kind}:{type(e).__name__}')
+                        continue
+                    if el is None:
+                        continue
+                    own = boxes[3 * (i % len(cfgs)):3 * (i % len(cfgs)) + 3]
+                    for b in own:
+                        want = base[boxes.index(b)][0]
+                        for bt in U.BOXTYPES:
+                            g = impl_scalar(el, U.boxarg(b, bt))
+                            rep._c01_scalar += 1
+                            if isinstance(g, tuple):
+                                viol(rep, f'scalar-raises:{kind}:nonempty',
+                                     f'{kind} scalar intersects_bounds raised {g[1]}: {g[2]} for a box given as {bt}',
+                                     {'kind': kind, 'subtype': st, 'element': els[i], 'box': list(b), 'box_type': bt})
+                            elif want is not None and g != bool(want[i]):
+                                viol(rep, f'forms-differ:{kind}:scalar',
+                                     f'{kind}: scalar intersects_bounds (box given as {bt}) differs from the array form',
+                                     {'kind': kind, 'subtype': st, 'element': els[i], 'box': list(b), 'box_type': bt,
+                                      'scalar': g, 'array': bool(want[i]),
+                                      'repro': f'{G.array_class(kind).__name__}([{els[i]!r}], dtype={st!r})[0]'
+                                               f'.intersects_bounds(U.boxarg({tuple(b)!r}, {bt!r}))'})
+
+
 def random_case(rep, acc, kind, st, els, desc, arr, logical, boxes):
     rng = rep.rng
     n = len(arr)
@@ -952,10 +1104,13 @@ def replay(rep, rp):
         el = arr[0]
         ok = True
         for b in boxes:
-            g = impl_scalar(el, unq(b))
             a = arr.intersects_bounds(unq(b))[0]
-            print('box', unq(b), 'scalar:', g, 'array:', bool(a))
-            ok = ok and (not isinstance(g, tuple)) and g == bool(a)
+            for bt in ([rp['box_type']] if 'box_type' in rp else U.BOXTYPES):
+                g = impl_scalar(el, U.boxarg(unq(b), bt))
+                if isinstance(g, tuple) or g != bool(a):
+                    print('box', unq(b), 'as', bt, 'scalar:', g, 'array:', bool(a))
+                    ok = False
+            print('box', unq(b), 'array:', bool(a))
         # the array form of the one-element array against the model (public buffers)
         r1 = [arr.intersects_bounds(unq(b)) for b in boxes]
         case = (export(kind, arr, q), U.boxes_raw(boxes))
@@ -984,10 +1139,11 @@ def replay(rep, rp):
     inds = rp.get('inds', [])
     inds_np = np.array(inds, dtype='int64')
     results, ok = [], True
+    btype = rp.get('box_type', 'tuple-int')
     for b in boxes:
-        r1, r2 = impl_array(arr, unq(b), inds_np)
+        r1, r2 = impl_array(arr, U.boxarg(unq(b), btype), inds_np)
         ok1, ok2 = not isinstance(r1, tuple), not isinstance(r2, tuple)
-        print('box', unq(b), 'array form:', r1.tolist() if ok1 else r1, 'inds form:', r2.tolist() if ok2 else r2)
+        print('box', unq(b), 'as', btype, 'array form:', r1.tolist() if ok1 else r1, 'inds form:', r2.tolist() if ok2 else r2)
         results.append((opt(U.pack_np(r1)) if ok1 else None, opt(U.pack_np(r2)) if ok2 else None))
         ok = ok and ok1 and ok2
         if ok1 and ok2:
